@@ -183,3 +183,133 @@ def run(P: Program, R: Report, tier: str) -> None:
             first_wins = any(isinstance(i, ast.If) and "not in" in norm(i.test) for i in ast.walk(lp))
             R.check(first_wins, "R12.6", f, lp, f"{f.short}: a target key is filled once", "", via="syntax")
     R.floor("R12.6", "renaming loops", n, 2)
+    # ---- R12.7 ids read from a source are tested with `is None` / isna / == sentinel, never by truthiness (0 is a legal id)
+    source_id_truthiness(P, R, "R12.7")
+    # ---- R12.8 a structural validator can be skipped only for a reason about its own input
+    validators_unavoidable(P, R, "R12.8")
+
+
+def source_id_truthiness(P: Program, R: Report, rule: str) -> None:
+    n = 0
+    for fn in P.functions.values():
+        if fn.parent is not None or ".import_export." not in fn.qname:
+            continue
+        for comp in ast.walk(fn.node):
+            gens = []
+            if isinstance(comp, (ast.ListComp, ast.SetComp, ast.GeneratorExp, ast.DictComp)):
+                gens = [(g.target, g.iter, g.ifs, comp) for g in comp.generators]
+            elif isinstance(comp, ast.For):
+                tests = [x.test for st in comp.body for x in ast.walk(st) if isinstance(x, (ast.If, ast.IfExp))]
+                gens = [(comp.target, comp.iter, tests, comp)]
+            for target, it, ifs, site in gens:
+                # id-valued loop variables: bound from a collection whose name says it holds ids
+                srcs = it.args if isinstance(it, ast.Call) and call_name(it) in ("zip", "enumerate") else [it]
+                tg = target.elts if isinstance(target, ast.Tuple) else [target]
+                if isinstance(it, ast.Call) and call_name(it) == "enumerate":
+                    srcs, tg = srcs[:1], tg[1:]
+                ids = set()
+                for t_, s_ in zip(tg, srcs, strict=False):
+                    nm = norm(s_)
+                    base = nm.split("[")[0].split(".")[-1]
+                    if isinstance(t_, ast.Name) and (base.endswith("_ids") or base in ("ids", "node_ids", "parent_ids")):
+                        ids.add(t_.id)
+                if not ids:
+                    continue
+                n += 1
+                bad = None
+                for t in ifs:
+                    leaves = [t]
+                    while leaves:
+                        x = leaves.pop()
+                        if isinstance(x, ast.BoolOp):
+                            leaves.extend(x.values)
+                        elif isinstance(x, ast.UnaryOp) and isinstance(x.op, ast.Not):
+                            leaves.append(x.operand)
+                        elif isinstance(x, ast.Name) and x.id in ids:
+                            bad = x
+                        elif isinstance(x, ast.Call) and norm(x.func) == "bool" and x.args and isinstance(x.args[0], ast.Name) and x.args[0].id in ids:
+                            bad = x
+                R.check(bad is None, rule, fn, bad or site, f"{fn.short}: ids read from the source ({', '.join(sorted(ids))}) are never tested by truthiness",
+                        f"`{norm(bad) if bad is not None else ''}` is used as a condition: id 0 counts as 'no id', so links from / to node 0 are dropped on import")
+    R.floor(rule, "loops over source id columns in the import/export package", n, 2)
+
+
+def validators_unavoidable(P: Program, R: Report, rule: str) -> None:
+    f = P.func_named("validate_in_memory_geff")
+    parents = {}
+    for p_ in ast.walk(f.node):
+        for ch in ast.iter_child_nodes(p_):
+            parents[ch] = p_
+
+    def guards_of(_f, stmt):
+        """tests of the enclosing if / while statements (the structural reason the statement runs)"""
+        out, cur = [], stmt
+        while cur in parents:
+            par = parents[cur]
+            if isinstance(par, (ast.If, ast.While)) and cur is not par.test:
+                out.append(norm(par.test))
+            cur = par
+        return out
+
+    cfg = build_cfg(f.node)
+    sites = []
+    for s in ast.walk(f.node):
+        if isinstance(s, ast.Assign) and isinstance(s.value, ast.Call) and (call_name(s.value) or "").startswith("validate_"):
+            # structural = the failing verdict raises
+            body = f.node.body
+            sites.append(s)
+    if len(sites) < 4:
+        raise AnalysisError(f"validate_in_memory_geff: only {len(sites)} validator calls found")
+    entry = next(n.id for n in cfg.nodes.values() if n.kind == "entry")
+    exits = [n.id for n in cfg.nodes.values() if n.kind == "exit"]
+    rets = [s for s in ast.walk(f.node) if isinstance(s, ast.Return)]
+
+    def own_input_only(names_in_guard: set[str], call: ast.Call) -> bool:
+        argn = {x.id for a in call.args for x in ast.walk(a) if isinstance(x, ast.Name)}
+        # locals defined from the arguments' containers count as the validator's own input
+        return bool(names_in_guard) and names_in_guard <= argn | {"len", "np"}
+
+    n = 0
+    for s in sites:
+        call = s.value
+        structural = False
+        nxt = None
+        parent_body = None
+        for p in ast.walk(f.node):
+            for fld in ("body", "orelse"):
+                b = getattr(p, fld, None)
+                if isinstance(b, list) and s in b:
+                    parent_body = b
+        if parent_body is not None:
+            i = parent_body.index(s)
+            nxt = parent_body[i + 1] if i + 1 < len(parent_body) else None
+            structural = isinstance(nxt, ast.If) and any(isinstance(x, ast.Raise) for x in ast.walk(nxt))
+        if not structural:
+            continue
+        n += 1
+        node = cfg.node_of(s)
+        if node is None:
+            R.undecided(rule, f, s, f"{call_name(call)} is on every path to a normal return", "call not found in the flow graph")
+            continue
+        avoid = any(cfg.reachable(entry, e, avoiding={node}) for e in exits)
+        if not avoid:
+            R.ok(rule, f, s, f"validate_in_memory_geff cannot return normally without running {call_name(call)}", via="cfg-must-pass")
+            continue
+        # which exits avoid it, and why
+        reasons, ok = [], True
+        for r in rets:
+            rn = cfg.node_of(r)
+            if rn is not None and cfg.reachable(entry, rn, avoiding={node}):
+                gs = guards_of(f, r)
+                names = {x.id for g in gs for x in ast.walk(ast.parse(g, mode="eval")) if isinstance(x, ast.Name)} if gs else set()
+                reasons.append(f"return at line {r.lineno} under {gs}")
+                ok = ok and own_input_only(names, call)
+        gs = guards_of(f, s)
+        if gs:
+            names = {x.id for g in gs for x in ast.walk(ast.parse(g, mode="eval")) if isinstance(x, ast.Name)}
+            reasons.append(f"the call itself is under {gs}")
+            ok = ok and own_input_only(names, call)
+        R.check(ok, rule, f, s, f"{call_name(call)} is skipped only for a reason about its own input",
+                f"a normal return avoids the structural validator {call_name(call)}({', '.join(norm(a) for a in call.args)}): {'; '.join(reasons)} - "
+                "a malformed source (e.g. duplicate ids) is then imported instead of rejected", via="cfg-must-pass")
+    R.floor(rule, "structural validator calls", n, 4)
